@@ -6,7 +6,11 @@
 
 mod gen;
 mod out;
+mod c03;
+mod c04;
 mod c05;
+mod c06;
+mod c07;
 
 use gen::Rng;
 use out::Out;
@@ -63,7 +67,11 @@ fn main() {
     out.notes.insert("overflow_checks".into(), format!("{}", ovf));
     let mut rng = Rng::new(seed);
     match prop.as_str() {
+        "C03" => c03::run(&mut out, &mut rng, tier),
+        "C04" => c04::run(&mut out, &mut rng, tier),
         "C05" => c05::run(&mut out, &mut rng, tier),
+        "C06" => c06::run(&mut out, &mut rng, tier),
+        "C07" => c07::run(&mut out, &mut rng, tier),
         _ => {
             eprintln!("unknown property {}", prop);
             std::process::exit(2);
